@@ -91,7 +91,7 @@ Fixpoint sorted_desc (l : list BoardState) : bool :=
 
 Inductive event :=
 | Send (b : BoardState)            (* tx.send(board) *)
-| Info (line : str).               (* send_to_gui(info line), without the trailing " time T" *)
+| Info (depth eval : Z) (line : str).   (* send_to_gui(info line) for this depth and evaluation; the line without its trailing " time T" *)
 
 Section Search.
 Variable zt : ztable.
@@ -330,7 +330,7 @@ Fixpoint root_moves (fuel : nat) (first : BoardState) (ms : list BoardState) (cu
                   if negb expired2 then
                     let s := set_principle_variation s in
                     root_moves fuel first rest cur_depth evaluation
-                               (mkR s (Some mov) (Info (info_line s cur_depth evaluation) :: Send mov :: r_events r))
+                               (mkR s (Some mov) (Info cur_depth evaluation (info_line s cur_depth evaluation) :: Send mov :: r_events r))
                   else root_moves fuel first rest cur_depth alpha (mkR s (r_best r) (r_events r))
                 else root_moves fuel first rest cur_depth alpha (mkR s (r_best r) (r_events r))
             end
